@@ -48,7 +48,7 @@ type pbSide struct {
 	id        uint32
 	ord       int
 	conn      *tchannel.Connection
-	info      tchannel.VerifConnInfo
+	info      tchannel.VerifConnInfo16
 	hps       []string // host:ports it must be listed under, by round
 	accepted  bool     // was in ch.mutable.conns when first seen
 	lastState int
